@@ -423,9 +423,72 @@ QXmppTask<void> QXmppAtmManager::distrust(const QString &encryption, const QMult
 
     auto future = setTrustLevel(encryption, keyIds, TrustLevel::ManuallyDistrusted);
     future.then(this, [=, this]() mutable {
-        auto future = trustStorage()->removeKeysForPostponedTrustDecisions(encryption, keyIds.values());
+        auto future = removePostponedTrustDecisions(encryption, keyIds.values(), keyIds.uniqueKeys());
         future.then(this, [=]() mutable {
             promise.finish();
+        });
+    });
+
+    return promise.task();
+}
+
+///
+/// Removes the postponed trust decisions of senders whose keys have been
+/// distrusted.
+///
+/// The postponed trust decisions are stored by the ID of the sender's key only.
+/// Thus, only those trust decisions are removed that could have been made by an
+/// endpoint of the accounts the keys have been distrusted for:
+/// If a key of an own endpoint has been distrusted, all trust decisions stored
+/// for its ID are removed.
+/// Otherwise, only the trust decisions for keys of those accounts are removed.
+/// The trust decisions of other senders using a key with the same ID are kept.
+///
+/// \param encryption encryption protocol namespace
+/// \param senderKeyIds IDs of the keys that have been distrusted
+/// \param senderJids bare JIDs of the accounts the keys have been distrusted for
+///
+QXmppTask<void> QXmppAtmManager::removePostponedTrustDecisions(const QString &encryption, const QList<QByteArray> &senderKeyIds, const QList<QString> &senderJids)
+{
+    if (senderKeyIds.isEmpty() || senderJids.contains(client()->configuration().jidBare())) {
+        return trustStorage()->removeKeysForPostponedTrustDecisions(encryption, senderKeyIds);
+    }
+
+    QXmppPromise<void> promise;
+
+    const auto senderKeyId = senderKeyIds.constFirst();
+    const auto remainingSenderKeyIds = senderKeyIds.mid(1);
+
+    auto future = trustStorage()->keysForPostponedTrustDecisions(encryption, { senderKeyId });
+    future.then(this, [=, this](const QHash<bool, QMultiHash<QString, QByteArray>> &&keysForPostponedTrustDecisions) mutable {
+        // key owners for the trust decisions being kept
+        QHash<QString, QXmppTrustMessageKeyOwner> keptKeyOwners;
+
+        for (const auto trust : { true, false }) {
+            const auto keys = keysForPostponedTrustDecisions.value(trust);
+            for (auto itr = keys.constBegin(); itr != keys.constEnd(); ++itr) {
+                if (!senderJids.contains(itr.key())) {
+                    auto &keyOwner = keptKeyOwners[itr.key()];
+                    keyOwner.setJid(itr.key());
+
+                    if (trust) {
+                        keyOwner.setTrustedKeys(keyOwner.trustedKeys() << itr.value());
+                    } else {
+                        keyOwner.setDistrustedKeys(keyOwner.distrustedKeys() << itr.value());
+                    }
+                }
+            }
+        }
+
+        auto future = trustStorage()->removeKeysForPostponedTrustDecisions(encryption, QList { senderKeyId });
+        future.then(this, [=, this]() mutable {
+            auto future = trustStorage()->addKeysForPostponedTrustDecisions(encryption, senderKeyId, keptKeyOwners.values());
+            future.then(this, [=, this]() mutable {
+                auto future = removePostponedTrustDecisions(encryption, remainingSenderKeyIds, senderJids);
+                future.then(this, [=]() mutable {
+                    promise.finish();
+                });
+            });
         });
     });
 
